@@ -80,11 +80,14 @@ impl EventParser {
                 if let Some(segment) = type_path.path.segments.last() {
                     let ident = segment.ident.to_string();
                     if let syn::PathArguments::AngleBracketed(args) = &segment.arguments {
+                        // Generic arguments keep their path as written, like the types of
+                        // parameters, returns and fields do: `Stamped<chrono::Utc>` is the name
+                        // a type mapping is looked up by at every site
                         let inner: Vec<String> = args
                             .args
                             .iter()
                             .filter_map(|arg| match arg {
-                                syn::GenericArgument::Type(t) => Some(self.extract_type_name(t)),
+                                syn::GenericArgument::Type(t) => Some(self.type_as_written(t)),
                                 _ => None,
                             })
                             .collect();
@@ -106,6 +109,29 @@ impl EventParser {
                 format!("({})", elems.join(", "))
             }
             _ => "unknown".to_string(),
+        }
+    }
+
+    /// Spell a generic argument the way the source does (path qualifiers kept)
+    fn type_as_written(&self, ty: &Type) -> String {
+        match ty {
+            Type::Path(type_path) if type_path.path.segments.len() > 1 => {
+                let last = self.extract_type_name(ty);
+                let qualifier: Vec<String> = type_path
+                    .path
+                    .segments
+                    .iter()
+                    .take(type_path.path.segments.len() - 1)
+                    .map(|segment| segment.ident.to_string())
+                    .collect();
+                let leading = if type_path.path.leading_colon.is_some() {
+                    "::"
+                } else {
+                    ""
+                };
+                format!("{}{}::{}", leading, qualifier.join("::"), last)
+            }
+            _ => self.extract_type_name(ty),
         }
     }
 
